@@ -3,16 +3,28 @@ import os
 import sys
 import z3
 sys.path.insert(0, os.path.dirname(os.path.dirname(os.path.abspath(__file__))))
-from props.common import main, Run, ALL_SIDECARS  # noqa: E402
+from props.common import main, Run, ALL_SIDECARS, companion_replayer, bounded_companion  # noqa: E402
 from props import faces  # noqa: E402
 from props.c12 import install_lemmas, dispatch_checked, HOOK_FNS  # noqa: E402
 
 SIDE = ALL_SIDECARS
 
 
+LOAD_DIFF = ("replay/load_diff.py: benign / sink-calling / analysis-raising inputs x {BytesIO, non-seekable stream, stream that serves other bytes after "
+             "the first pass} x {loader.load at all six thresholds, pickle.load under the global hook, pickle.load inside the context manager}: "
+             "returned object vs pickle.loads of the analysed bytes, UnsafeFileError's severity, pickle.find_class audit events and sink calls")
+
+
+def name_ld(f):
+    return f"load_diff:{f['kind']}:{f['way'].split('(')[0]}:{f['delivery']}"
+
+
 def build(run: Run):
     install_lemmas(run)
     eng = run.eng
+    arming = lambda o: o.name.split(":")[0].split(".")[0] in ("hook", "context", "lemmas_hooks")  # noqa: E731
+    run.replayers.append(companion_replayer(run, "C02", "hook_diff.py", only=arming, how="operation sequences over the arming API (replay/hook_diff.py)"))
+    run.replayers.append(companion_replayer(run, "C02", "load_diff.py", name_fn=name_ld, how=LOAD_DIFF))
     # the order used by the threshold test, and the aggregation the verdict comes from
     run.verify("analysis.Severity.__lt__", "analysis.Severity.__eq__", "analysis.Severity.__le__", "analysis.AnalysisResults.severity",
                "analysis.AnalysisResults.to_dict", "analysis.check_safety", "exception.UnsafeFileError.__init__",
@@ -34,6 +46,7 @@ def build(run: Run):
         "analysis raising: check_safety / Pickled.load may raise anything (may_raise); every such path is shown to reach no unpickle event",
         "the stream changes between analysis and load: modelled by never constraining later reads of the stream — the proof shows no later read exists",
     ]
+    bounded_companion(run, "C02", "load_diff.py", name_fn=name_ld, what=LOAD_DIFF)
     run.trusted_base += ["pickle.loads (stock unpickler)", "open/json.dump models", "stream protocol model"]
 
 
